@@ -294,44 +294,49 @@ func (s *Stream) Close() error {
 // unread data will be drained and released.
 func (s *Stream) close() error {
 	oldState := s.getStreamState()
-	if oldState == uint32(streamClosed) {
-		return nil
+	for {
+		if oldState == uint32(streamClosed) {
+			return nil
+		}
+		if atomic.CompareAndSwapUint32(&s.state, oldState, uint32(streamClosed)) {
+			break
+		}
+		// the state was changed meanwhile by the peer's close (half close) or by another Close, look again
+		oldState = s.getStreamState()
 	}
 
-	if atomic.CompareAndSwapUint32(&s.state, oldState, uint32(streamClosed)) {
-		if s.getCallbacks() != nil {
-			s.asyncGoroutineWg.Wait()
-		}
-		s.clean()
-		if oldState == uint32(streamOpened) || oldState == uint32(streamLocalHalfClosed) {
-			s.safeCloseNotify()
-			callback := s.getCallbacks()
-			if callback != nil {
-				if s.session.IsClosed() {
-					callback.OnRemoteClose()
-				} else {
-					callback.OnLocalClose()
-				}
-			}
+	if s.getCallbacks() != nil {
+		s.asyncGoroutineWg.Wait()
+	}
+	s.clean()
+	if oldState == uint32(streamOpened) || oldState == uint32(streamLocalHalfClosed) {
+		s.safeCloseNotify()
+		callback := s.getCallbacks()
+		if callback != nil {
 			if s.session.IsClosed() {
-				return nil
+				callback.OnRemoteClose()
+			} else {
+				callback.OnLocalClose()
 			}
-			// notify peer
-			// once the stream sends its data through the connection (fallback state), the close must follow the data on
-			// the connection as well: a close element in the queue could be consumed before the data has been read.
-			if !s.inFallbackState {
-				err := s.session.sendQueue().put(queueElement{seqID: s.id, status: uint32(streamClosed)})
-				if err == nil {
-					return s.session.wakeUpPeer()
-				}
-				atomic.AddUint64(&s.session.stats.queueFullErrorCount, 1)
-			}
-			// notify fallback
-			var streamCloseEvent [headerSize + 4]byte
-			header(streamCloseEvent[:]).encode(headerSize+4, s.session.communicationVersion, typeStreamClose)
-			binary.BigEndian.PutUint32(streamCloseEvent[headerSize:], s.id)
-			return s.session.waitForSend(nil, streamCloseEvent[:])
 		}
+		if s.session.IsClosed() {
+			return nil
+		}
+		// notify peer
+		// once the stream sends its data through the connection (fallback state), the close must follow the data on
+		// the connection as well: a close element in the queue could be consumed before the data has been read.
+		if !s.inFallbackState {
+			err := s.session.sendQueue().put(queueElement{seqID: s.id, status: uint32(streamClosed)})
+			if err == nil {
+				return s.session.wakeUpPeer()
+			}
+			atomic.AddUint64(&s.session.stats.queueFullErrorCount, 1)
+		}
+		// notify fallback
+		var streamCloseEvent [headerSize + 4]byte
+		header(streamCloseEvent[:]).encode(headerSize+4, s.session.communicationVersion, typeStreamClose)
+		binary.BigEndian.PutUint32(streamCloseEvent[headerSize:], s.id)
+		return s.session.waitForSend(nil, streamCloseEvent[:])
 	}
 	return nil
 }
